@@ -106,4 +106,25 @@ CLAIMS = {
                  "densities * bin_sizes == frequencies, additivity under merge_bins, totals vs the measure of the covered region, edge / centre / width accessors in 1D, "
                  "per-axis and mesh forms, cumulative_frequencies as running sum ending at total. Exploration."),
     },
+    "C17": {
+        "technique": "differential monitor: every supported container vs the equivalent numpy array (public snapshots must be equal) + conversion round trips",
+        "text": ("Lists, tuples, iterators, multi-dimensional arrays, pandas Series / DataFrames (+ accessors, weights as arrays / Series / column names), polars Series / "
+                 "DataFrames (+ namespaces) and dask arrays under random chunkings are histogrammed and compared with the numpy-array call, incl. NaN rows with weights and "
+                 "axis names; invalid inputs must be refused; xarray, pandas Series / DataFrame / IntervalIndex (gapped too) and generated Geant4 CSV files (1D, 2D nx != ny, "
+                 "under/overflow rows, moment-consistency oracle) must preserve bins, contents, errors and under/overflow. Exploration."),
+    },
+    "C19": {
+        "technique": "schedule stress: threads + asyncio tasks with per-context shadow stacks, switch interval 1 us, sys.monitoring yield injection; probes after every step",
+        "text": ("8-32 threads and 8-64 tasks (with sub-tasks) run random programs of nested enable/disable blocks, setter writes and exceptions; after every step the value "
+                 "read from config and the acceptance of array operands / negative contents are compared with the context's own shadow stack while other contexts hold the "
+                 "opposite value (conflicting overlaps are counted; below the floor the run is inconclusive); LINE callbacks sleep(0) inside config.py and the guarded "
+                 "operators to force pre-emption between set and reset; environment defaults are checked in child processes. Exploration of schedules, not a proof."),
+    },
+    "C20": {
+        "technique": "artist inspection: matplotlib (Agg) Axes artists, plotly traces and captured stdout compared with the histogram's data; snapshot before / after every plotting call",
+        "text": ("1D / 2D histograms and collections are plotted with every matplotlib, plotly and ASCII kind and the density / cumulative / errors / show_values / show_zero / "
+                 "ticks options; bar rectangles, line / step / scatter data, fill polygons, error-bar segments, map rectangles and colours, image array and extent, texts, "
+                 "titles, labels, ticks, traces and stdout are compared with edges / centres and frequencies / densities / running sums / +-sqrt(errors2); plotting must "
+                 "not modify the histogram (also checked passively under the repository's tests); refusals and TimeTickHandler ticks are checked. Exploration."),
+    },
 }
